@@ -446,4 +446,28 @@ theorem local2_false (ctx : List Str) (stmt toks : Str) (recv : Bool) (hs : stmt
     fe1_1, List.any_cons, List.any_nil, Bool.or_false]
   simp [hs]
 
+/-! ## the order of the candidates of `function_def` -/
+
+/-- `match_feature` of each candidate class -/
+def accepts : FuncClass → FuncFeat → Bool
+  | .classMethod, f => isClassMethod f
+  | .constructor, f => isConstructor f
+  | .method, f => isMethod f
+  | .closure, f => isClosure f
+  | .function, _ => true
+
+/-- `NodeResolver.resolve` over an arbitrary registration order -/
+def firstOf (order : List FuncClass) (f : FuncFeat) : FuncClass := (order.find? fun c => accepts c f).getD .function
+
+/-- the registration orders that classify like the shipped one: `ClassMethod` before the three classes it overlaps with,
+    the always-accepting `Function` last; `Constructor`, `Method`, `Closure` are pairwise disjoint and may come in any order -/
+def okOrders : List (List FuncClass) := [
+  [.classMethod, .constructor, .method, .closure, .function], [.classMethod, .constructor, .closure, .method, .function],
+  [.classMethod, .method, .constructor, .closure, .function], [.classMethod, .method, .closure, .constructor, .function],
+  [.classMethod, .closure, .constructor, .method, .function], [.classMethod, .closure, .method, .constructor, .function]]
+
+/-- the registered order of `function_def` read from the generated resolver table -/
+def generatedFuncOrderOk : Bool :=
+  okOrders.any fun o => (rowOf c!"function_def").map (fun r => r.map (·.1)) == some (o.map FuncClass.name)
+
 end Tranp.C02
